@@ -190,6 +190,10 @@ func c16Record(id, size int, timeMs int64) *pack.LogSinkPack {
 	p.Category = "c16"
 	p.Line = int64(id)
 	p.Content = "rec-" + strconv.Itoa(id) + "-" + strings.Repeat("q", size)
+	if id%5 == 3 {
+		// multi-byte content: sizes in bytes and in characters differ
+		p.Content = "rec-" + strconv.Itoa(id) + "-" + strings.Repeat("ü", size/2) + strings.Repeat("한", size%7)
+	}
 	return p
 }
 
